@@ -115,6 +115,8 @@ def generate(rng, seed, part):
             ax["start"] = "bins"
             ax["times_min"] = rng.randint(-5, 5) + ax["base_k"]
             ax["count"] = rng.randint(1, 4)
+            # the integer parameters may well come out of a numpy computation
+            ax["np_int"] = rng.random() < 0.3
     n = rng.choice([1, 2, 3, 5, 8, 12, 20, 40])
     if deep_tier(rng):
         n = rng.choice([60, 120, 200])
@@ -159,6 +161,10 @@ def generate(rng, seed, part):
             # somebody takes a projection / an integer selection of the accumulator and fills *that* object beyond its
             # range; the accumulator's own history goes on afterwards
             ops.append({"op": "side", "how": rng.choice(["projection", "select"]), "axis": rng.randrange(ndim),
+                        "far": rng.choice([-9.5, 11.25, 40.0])})
+        if rng.random() < 0.05:
+            # ... or an empty clone / a full copy of it (a second accumulator over "the same bins")
+            ops.append({"op": "side", "how": rng.choice(["copy_empty", "copy_empty", "copy"]), "axis": 0,
                         "far": rng.choice([-9.5, 11.25, 40.0])})
     return {"property": PROPERTY, "scenario": "adaptive_stream", "config": cfg, "entries": entries, "ops": ops}
 
@@ -258,6 +264,8 @@ def make_adaptive(cfg, entries):
             kw = {"bin_width": ax["width"], "adaptive": True, "align": ax["align"]}
             if ax.get("start") == "bins":
                 kw.update(bin_count=ax["count"], bin_times_min=ax["times_min"])
+                if ax.get("np_int"):
+                    kw.update(bin_count=np.int64(ax["count"]), bin_times_min=np.int64(ax["times_min"]))
             if ax.get("shift") is not None:
                 kw["bin_shift"] = ax["shift"]
             bs.append(FixedWidthBinning(**kw))
@@ -424,7 +432,19 @@ def execute(plan, ctx):
         shape_before = tuple(h.shape)
         first_before = [float(b.bins[0, 0]) if b.bin_count else None for b in h.binnings]
         if op["op"] == "side":
-            if ndim < 2 or any(b.bin_count == 0 for b in h.binnings):
+            if any(b.bin_count == 0 for b in h.binnings):
+                continue
+            if op["how"] in ("copy_empty", "copy"):
+                ok, side = attempt(h.copy, include_frequencies=op["how"] == "copy")
+                if ok:
+                    far = [float(np.asarray(b.bins)[0, 0]) + op["far"] * widths[k] for k, b in enumerate(side.binnings)]
+                    ok, res = attempt(side.fill, far[0] if ndim == 1 else far)
+                    ctx.ev("other", f"side:{op['how']}", None, "ok" if ok else exc_tag(res))
+                    ctx.abstract("side", op["how"], ok)
+                    ctx.fault("derived_object_filled")
+                    prev = check_all([], prev, "fill-of-a-derived-histogram")
+                continue
+            if ndim < 2:
                 continue
             ax = op["axis"] % ndim
             if op["how"] == "projection":
